@@ -146,6 +146,11 @@ def main(chk: lib.Check) -> int:
     chk.add_model("RngHistory/small", r, "2 seeds, 2 configs, every history of 6 steps over draw / reseed / new config / generate / from_config")
     lib.tlc_expect_violation("RngHistory", "RngHistory_noreseed.cfg", "PureFunctionOfCfg", tag="rh1")
     chk.notes["broken_design_rejected"] = "copy of the config without re-running set_reproducibility"
+    # unbounded in the length of the history: PureFunctionOfCfg as an inductive invariant (Apalache, symbolic)
+    apa = lib.apalache_inductive("MC_RngHistory", ["RngHistory.tla"], broken_sub=("ReseedOnCopy == TRUE", "ReseedOnCopy == FALSE"))
+    chk.notes["apalache_inductive_invariant"] = apa
+    if apa.get("available"):
+        chk.models.append(dict(model="RngHistory/Apalache inductive", what="TypeOK /\\ PureFunctionOfCfg is inductive: base (Init => Inv) and step (Inv /\\ Next => Inv') discharged; holds for histories of any length", obligations=apa["obligations"]))
     # ---- (B) histories from the spec
     h2, r2 = emit_histories("RngEmit_2.cfg")
     chk.add_model("RngEmit/2", r2, "all two-step histories emitted")
